@@ -6,6 +6,9 @@ def T(shards=8, procs=2, timeout=600, **kw):
     return d
 
 CHECKS = {
+    "C20": {"pkg": "c20", "level": "exploration",
+            "quick": T(8, 2, 600), "thorough": T(14, 1, 2400),
+            "assumptions": ["traffic secrets observed through the verif hook; keys derived by the independent reference", "interleavings of parallel operations are those the scheduler produces in the bubble"]},
     "C14": {"pkg": "c14", "level": "exploration",
             "quick": T(8, 2, 600), "thorough": T(14, 1, 2400),
             "assumptions": ["DTLS 1.2 only (1.3 tickets are sent but never consumed in this tree)", "store model = the harness-owned recording stores"]},
